@@ -65,6 +65,7 @@ def run(res):
     res.obligations.append(name)
     dis = []
     failing = 0
+    n_consumed = 0
     slow = []
     for r in recs:
         why = parsestage.agree(r, with_expansion=False)     # the generated code is C14's and C15's business
@@ -78,6 +79,17 @@ def run(res):
                               {"invocation": "assert_struct!(%s)" % r.text, "origin": r.origin, "panic_message": r.msg})
         if r.ms > SLOW_MS:
             slow.append(r)
+        # `never accepts input it did not fully consume`: every identifier / literal token of an accepted invocation is part of
+        # the parsed value or pattern
+        if r.real_status == "ok" and r.tt:
+            n_consumed += 1
+            import prop_c15
+            miss = prop_c15.dropped_tokens(r)       # the accounting shared with C15 (tuple indices, regex literals)
+            if miss:
+                failing += 1
+                if failing <= 3:
+                    res.violation("failing-input", "the macro accepts input it did not fully consume: token(s) %s are in no part of the parsed invocation"
+                                  % ", ".join(miss[:5]), {"invocation": "assert_struct!(%s)" % r.text, "origin": r.origin, "dropped": miss[:20]})
     for r in slow[:2]:
         failing += 1
         res.violation("failing-input", "expansion took %d ms (budget %d ms): does not terminate in practical time" % (r.ms, SLOW_MS),
@@ -93,6 +105,7 @@ def run(res):
         "max_ms": max([r.ms for r in recs] or [0]),
         "error_positions_compared": sum(1 for r in recs if r.real_status == "err"),
         "trees_compared": sum(1 for r in recs if r.real_status == "ok"),
+        "accepted_checked_for_unconsumed_tokens": n_consumed,
         "samples": [{"invocation": r.text, "outcome": r.real_status, "at": r.real_pos} for r in recs[::max(1, len(recs) // 5)][:5]],
     }
     if dis:
@@ -208,6 +221,8 @@ def replay_file(res, path, corpus=False):
         bad = "the macro panics: " + (r.msg or "")
     elif r.ms > SLOW_MS:
         bad = "expansion took %d ms" % r.ms
+    elif r.real_status == "ok" and r.tt and __import__("prop_c15").dropped_tokens(r):
+        bad = "accepted without being fully consumed: " + ", ".join(__import__("prop_c15").dropped_tokens(r)[:5])
     elif parsestage.agree(r):
         bad = None if corpus else "implementation and model disagree: " + parsestage.agree(r)
     if bad:
